@@ -520,6 +520,9 @@ def compare(op, a, b):
             if isinstance(y, Const) and isinstance(y.v, bool) and _boolish(x):
                 same = op in ("is", "eq")
                 return x if (y.v is True) == same else not_(x)
+    # max(c, x) compared with a constant not above c
+    if op in ("lt", "ge") and isinstance(a, Op) and a.op == "max" and is_int(b) and any(is_int(x) and x.v >= b.v for x in a.args):
+        return Const(op == "ge")
     # canonical orientation: constant on the right
     if isinstance(a, Const) and not isinstance(b, Const) and op in _CMP_SWAP:
         a, b, op = b, a, _CMP_SWAP[op]
